@@ -17,6 +17,21 @@ def sh(cmd, cwd=None, timeout=3000):
     return p.returncode, (p.stdout + p.stderr)
 patch = os.path.join(src, "patch.diff")
 demos = [f for f in glob.glob(os.path.join(src, "*.rs"))]
+wiring = glob.glob(os.path.join(src, "demo_wiring*.diff"))   # in-crate demo: the .rs goes to src/, wired by this diff
+def place_demos(wt):
+    if wiring:
+        for w in wiring:
+            subprocess.run(["git", "apply", w], cwd=wt)
+        for d in demos:
+            shutil.copy(d, os.path.join(wt, "src", os.path.basename(d)))
+    else:
+        os.makedirs(os.path.join(wt, "tests"), exist_ok=True)
+        for d in demos:
+            shutil.copy(d, os.path.join(wt, "tests", os.path.basename(d)))
+def demo_cmd(dn, tail):
+    if wiring:
+        return f"cargo test --offline{FEAT} --lib {dn} 2>&1 | tail -{tail}"
+    return f"cargo test --offline{FEAT} --test {dn} 2>&1 | tail -{tail}"
 meta = {"property": prop, "source": src, "ran": []}
 subprocess.run(["git", "-C", "/repo", "worktree", "remove", "--force", wt], capture_output=True)
 subprocess.run(["git", "-C", "/repo", "worktree", "add", "-q", wt, "HEAD"], check=True)
@@ -27,22 +42,20 @@ try:
     rc, out = sh("cargo test --workspace --offline" + FEAT + " 2>&1 | grep -E '^test result|FAILED|^error' ", wt)
     suite_ok = ("FAILED" not in out) and ("error" not in out) and ("test result: ok" in out)
     meta["ran"].append({"cmd": "cargo test --workspace --offline (with the change, without the demo)", "ok": suite_ok, "out": out[-600:]})
-    os.makedirs(os.path.join(wt, "tests"), exist_ok=True)
-    for d in demos:
-        shutil.copy(d, os.path.join(wt, "tests", os.path.basename(d)))
+    place_demos(wt)
     demo_names = [os.path.basename(d)[:-3] for d in demos]
     fails_with = True
     for dn in demo_names:
-        rc, out = sh(f"cargo test --offline{FEAT} --test {dn} 2>&1 | tail -15", wt)
+        rc, out = sh(demo_cmd(dn, 15), wt)
         bad = ("FAILED" in out) or ("panicked" in out) or ("test result: FAILED" in out)
         meta["ran"].append({"cmd": f"cargo test --offline --test {dn} (with the change)", "demo_fails": bad, "out": out[-800:]})
         fails_with = fails_with and bad
     sh("git checkout -- src nuts-derive nuts-storable Cargo.toml 2>/dev/null; git checkout -- .", wt)
-    for d in demos:
-        shutil.copy(d, os.path.join(wt, "tests", os.path.basename(d)))
+    sh("git clean -fdq src tests", wt)
+    place_demos(wt)
     passes_without = True
     for dn in demo_names:
-        rc, out = sh(f"cargo test --offline{FEAT} --test {dn} 2>&1 | tail -6", wt)
+        rc, out = sh(demo_cmd(dn, 6), wt)
         good = ("test result: ok" in out) and ("FAILED" not in out)
         meta["ran"].append({"cmd": f"cargo test --offline --test {dn} (unchanged tree)", "demo_passes": good, "out": out[-400:]})
         passes_without = passes_without and good
@@ -86,6 +99,8 @@ os.makedirs(dst, exist_ok=True)
 shutil.copy(patch, os.path.join(dst, "patch.diff"))
 for d in demos:
     shutil.copy(d, os.path.join(dst, os.path.basename(d)))
+for w in wiring:
+    shutil.copy(w, os.path.join(dst, os.path.basename(w)))
 if os.path.exists(os.path.join(src, "notes.md")):
     shutil.copy(os.path.join(src, "notes.md"), os.path.join(dst, "notes.md"))
 json.dump(meta, open(os.path.join(dst, "meta.json"), "w"), indent=1)
